@@ -40,6 +40,7 @@ def outerLaws (IL : MLaws I) (keysOf : Route → Option (List K))
   repr_remove := fun s L id h hU => lrepr_remove IL keysOf s L id h hU
   remove_some := fun s L id r h hU hr hwf hid => lremove_some IL keysOf s L id r h hU hr hwf hid
   remove_none := fun s L id h hno => lremove_none IL keysOf s L id h hno
+  remove_pos := fun s L id h hs => lremove_pos IL keysOf s L id h hs
   repr_batch := fun s L ids h => lrepr_batch IL keysOf s L ids h
   mem_match := mem_match
   nodup_match := nodup_match
